@@ -76,8 +76,15 @@ func c14History(c *core.Ctx, env *idxEnv, r *rand.Rand, h int) {
 		bat = bat[:60]
 	}
 	var pendingBefore map[string]interface{} // model before the mutation being indexed (mutations are flushed one by one)
+	multi := false                            // a multi-mutation transaction is being indexed: only the callback sequence is checked
 	env.qs.OnQueryChange(func(qc store.QueryChange) {
 		rec := qcRec{ID: qc.ID(), Before: valUID(qc.Before()), After: valUID(qc.After()), Seq: mon.Seq(), IndexOK: true}
+		if multi {
+			mu.Lock()
+			recs = append(recs, rec)
+			mu.Unlock()
+			return
+		}
 		// after the index reflects the mutation: the new key finds the id, the old key does not
 		for _, idx := range []struct{ name, field string }{{"k", "k"}, {"x2", "k2"}} {
 			nk, nok := "", false
@@ -154,6 +161,35 @@ func c14History(c *core.Ctx, env *idxEnv, r *rand.Rand, h int) {
 		mu.Lock()
 		nBefore := len(recs)
 		mu.Unlock()
+		if r.Intn(5) == 0 {
+			// one write transaction: read, then 2-3 mutations of the same id
+			multi = true
+			ms, bs, as := env.mutateTxn(r, ids, n)
+			env.qs.Flush()
+			multi = false
+			hist = append(hist, ms...)
+			var want []string
+			for i, m := range ms {
+				c.Eval(1)
+				if m.Err == "" && c14KeyChanged(bs[i], as[i]) {
+					want = append(want, fmt.Sprintf("%s:%s>%s", m.ID, valUID(bs[i]), valUID(as[i])))
+				}
+			}
+			mu.Lock()
+			var got []string
+			for _, g := range recs[nBefore:] {
+				got = append(got, fmt.Sprintf("%s:%s>%s", g.ID, g.Before, g.After))
+			}
+			mu.Unlock()
+			if strings.Join(got, " ") != strings.Join(want, " ") {
+				c.Violation("C14/callback-sequence:multi-mutation-transaction", fmt.Sprintf("a write transaction with mutations %+v ran query-change callbacks %v, want %v (id:before>after of every key-changing mutation, in order)", ms, got, want),
+					map[string]interface{}{"mutations": ms, "got": got, "want": want, "typed": env.typed, "prefix": env.prefix})
+			}
+			if len(want) > 0 {
+				c.Distinct(fmt.Sprintf("%s/h%d/multi%d", c.Batch.Name, h, n))
+			}
+			continue
+		}
 		m, before, after := env.mutate(r, ids, n)
 		hist = append(hist, m)
 		env.qs.Flush()
@@ -210,6 +246,24 @@ func c14History(c *core.Ctx, env *idxEnv, r *rand.Rand, h int) {
 	if h == 0 {
 		c.Sample(map[string]interface{}{"typed": env.typed, "prefix": env.prefix, "history_head": hist[:minInt(6, len(hist))], "events_battery": bat[:4]})
 	}
+}
+
+// c14KeyChanged tells whether some index key differs between two values.
+func c14KeyChanged(before, after interface{}) bool {
+	for _, f := range []string{"k", "k2"} {
+		bk, bok := "", false
+		if before != nil {
+			bk, bok = valKey(before, f)
+		}
+		ak, aok := "", false
+		if after != nil {
+			ak, aok = valKey(after, f)
+		}
+		if bok != aok || bk != ak {
+			return true
+		}
+	}
+	return false
 }
 
 // modelAfterLocked returns the current model (the harness mutates the model
